@@ -52,7 +52,7 @@ PROPS = {
         'text': 'The writer invariant track_wf (every sample but the last carries the exact distance to its successor, computed from absolute ticks) is proved for all call histories; the stts/ctts builders are proved to be '
                 'the maximal run-length encoding whose expansion is the duration list; the public calls are proved to hand ticks(pts)/ticks(dts) unchanged to the writer.',
         'note': FLOAT + '; ' + BOUNDED_LEAVES,
-        'kani': FROMS + ['kb_total_duration'], 'kani_thorough': FROMS_T + ['k_ticks_nearest', 'kb_ticks_monotone'],
+        'kani': FROMS + ['kb_total_duration', 'kb_total_duration_fits'], 'kani_thorough': FROMS_T + ['k_ticks_nearest', 'kb_ticks_monotone'],
         'assumptions': [FLOAT, BOUNDED_LEAVES],
     },
     'C04': {
@@ -158,7 +158,7 @@ PROPS = {
         'text': 'Every fixed-width numeric field of every builder has a clause stating its mathematical value; Verus leaves narrowing casts unspecified outside the target range, so each clause is provable only where a guard dominates the cast. '
                 'The guards of finalize (mdat size, chunk offsets) and of the writer (32-bit sample deltas) are proved sufficient.',
         'note': 'fields without a guard are recorded findings (one obligation each)',
-        'kani': FROMS, 'kani_thorough': FROMS_T, 'assumptions': [A2],
+        'kani': FROMS + ['kb_total_duration_fits'], 'kani_thorough': FROMS_T, 'assumptions': [A2],
     },
     'C17': {
         'title': 'Output is a pure function of the call sequence; equivalent API paths agree',
